@@ -1111,8 +1111,31 @@ def tu_net_lines(rng, count, maxnodes=60):
     return out
 
 
+def sp_cert_lines(rng, count, ternary, maxlines=120):
+    """cases of the `tu_net` (ternary) / `regular_cert` (binary) apis without witness: series-parallel matrices built from a
+    1x1 matrix by up to maxlines zero / unit / (negated) copy lines in random positions, then permuted; the judges certify them
+    by the Coq reduction model (SpTU.v: series-parallel => TU resp. regular), so the verdict is decided at every size"""
+    import vlib
+    out = []
+    for i in range(count):
+        k = 2 + rng.below(12) if i % 4 == 0 else 12 + rng.below(maxlines - 11)
+        M = add_sp_lines(rng, [[rng.choice([1, -1]) if ternary else 1]], k, ternary)
+        if not M or not M[0]:
+            continue
+        M = permute(rng, M)
+        if ternary:
+            c = rand_cfg(rng, stopflags=False, wantSub=rng.below(2))
+            if c[0] != 0 and len(M) * len(M[0]) > 64:
+                c[0] = 0
+            out.append("%s %s 0" % (cfg_line(c), vlib.mat_line(M)))
+        else:
+            c = rand_cfg(rng, algorithm=0, stopflags=False, wantSub=0)
+            out.append("%s %s %d 0" % (cfg_line(c), vlib.mat_line(M), rng.below(2)))
+    return out
+
+
 TU_NET_CODES = {1: "malformed record", 430: "CMRtuTest failed on a network matrix", 431: "verdict not written although no stop flag is set",
-                432: "a network matrix (certified by its digraph) is reported not totally unimodular",
+                432: "a network matrix (certified by its digraph) or series-parallel matrix (certified by the reduction model) is reported not totally unimodular",
                 433: "a violating submatrix is returned for a network matrix"}
 
 
@@ -1140,7 +1163,7 @@ def regular_cert_lines(rng, count, maxnodes=40):
 
 REGULAR_CERT_CODES = {1: "malformed record", 440: "CMRregularTest failed on a (co)graphic matrix",
                       441: "verdict not written although no stop flag is set",
-                      442: "a graphic / cographic matrix (certified by its graph) is reported not regular"}
+                      442: "a graphic / cographic matrix (certified by its graph) or series-parallel matrix (certified by the reduction model) is reported not regular"}
 
 
 def deep_forest_network(rng, n, chords):
